@@ -1,7 +1,9 @@
 import Lemmas.U128Div
 import Lemmas.U128DivBin
+import Lemmas.U128Knuth
 import Lemmas.I128Basic
 import Lemmas.I128Div
+import Lemmas.I128DivW
 /-! # C01 — 128-bit integer arithmetic, ordering and bit operations are ℤ mod 2^128
 
 Property theorems only.  The executable models are `Model/U128.lean` (`num.Uint128`) and `Model/I128.lean` (`num.Int128`),
@@ -9,12 +11,11 @@ the same definitions the driver `drv_c01` runs against the Go code on every chec
 `Lemmas/U128*.lean`, `Lemmas/I128*.lean`.  `toNat u = hi·2^64 + lo`, `toInt i` = two's complement, `bv u : BitVec 128`.
 Every theorem quantifies over all operands (no size bound), all shift counts, all bit indexes.
 
-Division: the dispatch (÷0 panic, ÷1, 64-bit fast path, power of two, `u < n`, `u = n`, selection of a kernel) is
-proved outright (`divMod_spec_fast`, `no_other_panic`, `div_eq_fst_divMod`, …), and so is the binary kernel
-`divmod128bin` (`divmod128bin_spec`, `divMod_spec_bin`).  The two Knuth kernels (`divmod128by64`, the estimate branch of
-`divmod128by128`) enter `divMod_spec_partial` as the named contracts `U128.Divlu64Spec`, `U128.Div128Spec`; on those
-paths the tie to the implementation is the correspondence run (every path and correction count is hit on every run,
-see the tag histogram). -/
+Division: the dispatch (÷0 panic, ÷1, 64-bit fast path, power of two, `u < n`, `u = n`, selection of a kernel) and all
+three kernels are proved: `divmod128bin` (`divmod128bin_spec`), `divmod128by64` — Knuth D on 32-bit digits with its two
+correction loops — (`divmod128by64_spec`) and the estimate-and-correct branch of `divmod128by128`
+(`divmod128by128_spec`).  Hence `divMod_spec`, `div_mul_add_mod`, `idivMod_spec`, `idiv_mul_add_mod` hold for every
+operand pair with no hypothesis other than a non-zero divisor. -/
 namespace C01
 open U128 (W Res ofW)
 
@@ -173,10 +174,6 @@ theorem div64_eq (a : U128) (n : W) :
     a.divModW n = a.divMod (ofW n) ∧ a.divW n = a.div (ofW n) ∧ a.modW n = a.mod (ofW n) :=
   ⟨U128.divModW_eq a n, U128.divW_eq a n, U128.modW_eq a n⟩
 
-/-- the full statement: `DivMod` returns floor quotient and remainder for every non-zero divisor -/
-def divMod_spec_Statement : Prop := ∀ (a n : U128), n.toNat ≠ 0 →
-  ∃ q r, a.divMod n = .ok (q, r) ∧ q.toNat = a.toNat / n.toNat ∧ r.toNat = a.toNat % n.toNat
-
 /-- `divMod_spec` on every path that does not enter a kernel — divisor 1, both operands below 2^64, divisor a power of
     two, dividend ≤ divisor — with no hypothesis -/
 theorem divMod_spec_fast (a n : U128) (h : n.toNat ≠ 0)
@@ -195,18 +192,38 @@ theorem divMod_spec_bin (a n : U128) (h : n.toNat ≠ 0)
     ∃ q r, a.divMod n = .ok (q, r) ∧ q.toNat = a.toNat / n.toNat ∧ r.toNat = a.toNat % n.toNat :=
   U128.divMod_bin a n h hgap
 
-/-- `divMod_spec` in general, with the contracts of the two Knuth kernels as explicit named hypotheses (the dispatch,
-    the binary kernel, the reduction of the word-divisor case to `divmod128by64` with the high/low split, and all fast
-    paths are proved) -/
-theorem divMod_spec_partial (h64 : U128.Divlu64Spec) (h128 : U128.Div128Spec) : divMod_spec_Statement :=
-  fun a n h => U128.divMod_correct h64 h128 U128.divBinSpec a n h
+/-- the kernel `divmod128by64` (Knuth Algorithm D on 32-bit digits, both correction loops), called with the divisor's
+    leading-zero count and a dividend whose high word is below the divisor, returns floor quotient and remainder:
+    proved, no hypothesis -/
+theorem divmod128by64_spec (u : U128) (n : W) (hn : n ≠ 0#64) (hlt : u.hi.toNat < n.toNat) :
+    (U128.divmod128by64 u n (U128.clz n)).1.toNat = u.toNat / n.toNat ∧
+    (U128.divmod128by64 u n (U128.clz n)).2.toNat = u.toNat % n.toNat := U128.divlu64Spec u n hn hlt
 
-/-- quotient·divisor + remainder reproduces the dividend, and the remainder is smaller than the divisor (from the
-    kernel contracts) -/
-theorem div_mul_add_mod_partial (h64 : U128.Divlu64Spec) (h128 : U128.Div128Spec)
-    (a n : U128) (h : n.toNat ≠ 0) :
+/-- the estimate-and-correct branch of `divmod128by128` (divisor wider than one word: normalise, estimate the quotient
+    from the top words with `divmod128by64`, shift, decrement, multiply back, one correction) returns floor quotient
+    and remainder: proved, no hypothesis -/
+theorem divmod128by128_spec (u n : U128) (hn : n.hi ≠ 0#64) (hlt : n.toNat < u.toNat) :
+    (U128.divmod128by128 u n (U128.clz n.hi) 0).1.toNat = u.toNat / n.toNat ∧
+    (U128.divmod128by128 u n (U128.clz n.hi) 0).2.toNat = u.toNat % n.toNat := U128.div128Spec u n hn hlt
+
+/-- **`DivMod` returns floor quotient and remainder for every non-zero divisor** (dispatch, fast paths, the reduction of
+    the word-divisor case to `divmod128by64` with the high/low split, and all three kernels are proved) -/
+theorem divMod_spec (a n : U128) (h : n.toNat ≠ 0) :
+    ∃ q r, a.divMod n = .ok (q, r) ∧ q.toNat = a.toNat / n.toNat ∧ r.toNat = a.toNat % n.toNat :=
+  U128.divMod_total a n h
+
+/-- `Div`, `Mod` and the three `…64` entry points return the same floor quotient / remainder -/
+theorem div_mod_spec (a n : U128) (h : n.toNat ≠ 0) :
+    (∃ q, a.div n = .ok q ∧ q.toNat = a.toNat / n.toNat) ∧ (∃ r, a.mod n = .ok r ∧ r.toNat = a.toNat % n.toNat) := by
+  obtain ⟨q, r, e, hq, hr⟩ := U128.divMod_total a n h
+  constructor
+  · exact ⟨q, by rw [U128.div_eq_divMod, e]; rfl, hq⟩
+  · exact ⟨r, by rw [U128.mod_eq_divMod, e]; rfl, hr⟩
+
+/-- quotient·divisor + remainder reproduces the dividend, and the remainder is smaller than the divisor -/
+theorem div_mul_add_mod (a n : U128) (h : n.toNat ≠ 0) :
     ∃ q r, a.divMod n = .ok (q, r) ∧ q.toNat * n.toNat + r.toNat = a.toNat ∧ r.toNat < n.toNat := by
-  obtain ⟨q, r, e, hq, hr⟩ := U128.divMod_correct h64 h128 U128.divBinSpec a n h
+  obtain ⟨q, r, e, hq, hr⟩ := U128.divMod_total a n h
   refine ⟨q, r, e, ?_, ?_⟩
   · rw [hq, hr, Nat.mul_comm]; exact Nat.div_add_mod _ _
   · rw [hr]; exact Nat.mod_lt _ (by omega)
@@ -305,21 +322,17 @@ theorem idiv_zero_panics (a : I128) :
   · simp only [I128.divW, hn, Bool.false_eq_true, if_false, hdw]
   · simp only [I128.modW, h5]
 
-/-- the full signed statement: quotient truncated toward zero and reduced mod 2^128 (it wraps only for
-    `MinInt128 / -1`), remainder with the sign of the dividend -/
-def idivMod_spec_Statement : Prop := ∀ (a n : I128), n.toInt ≠ 0 →
-  ∃ q r, a.divMod n = .ok (q, r) ∧ q.toInt = I128.wrap128 (a.toInt.tdiv n.toInt) ∧ r.toInt = a.toInt.tmod n.toInt
-
-/-- `Int128.DivMod` from the unsigned specification (magnitudes, sign fix-up and the `MinInt128` wrap are proved; the
-    hypotheses are the three kernel contracts of the unsigned division) -/
-theorem idivMod_spec_partial (h64 : U128.Divlu64Spec) (h128 : U128.Div128Spec) : idivMod_spec_Statement :=
-  fun a n h => I128.divMod_correct (fun u m hm => U128.divMod_correct h64 h128 U128.divBinSpec u m hm) a n h
+/-- **`Int128.DivMod`**: quotient truncated toward zero and reduced mod 2^128 (it wraps only for `MinInt128 / -1`),
+    remainder with the sign of the dividend — magnitudes, sign fix-up and the `MinInt128` wrap on top of the unsigned
+    `divMod_spec`; no hypothesis other than a non-zero divisor -/
+theorem idivMod_spec (a n : I128) (h : n.toInt ≠ 0) :
+    ∃ q r, a.divMod n = .ok (q, r) ∧ q.toInt = I128.wrap128 (a.toInt.tdiv n.toInt) ∧ r.toInt = a.toInt.tmod n.toInt :=
+  I128.divMod_correct U128.divMod_total a n h
 
 /-- quotient·divisor + remainder reproduces the dividend (mod 2^128; exactly, unless the quotient wrapped) -/
-theorem idiv_mul_add_mod_partial (h64 : U128.Divlu64Spec) (h128 : U128.Div128Spec)
-    (a n : I128) (h : n.toInt ≠ 0) :
+theorem idiv_mul_add_mod (a n : I128) (h : n.toInt ≠ 0) :
     ∃ q r, a.divMod n = .ok (q, r) ∧ I128.wrap128 (q.toInt * n.toInt + r.toInt) = a.toInt := by
-  obtain ⟨q, r, e, hq, hr⟩ := idivMod_spec_partial h64 h128 a n h
+  obtain ⟨q, r, e, hq, hr⟩ := idivMod_spec a n h
   refine ⟨q, r, e, ?_⟩
   have hra := I128.toInt_range a
   have key := Int.tdiv_mul_add_tmod a.toInt n.toInt
@@ -338,6 +351,11 @@ theorem idiv_mul_add_mod_partial (h64 : U128.Divlu64Spec) (h128 : U128.Div128Spe
   generalize k * n.toInt = j
   unfold I128.wrap128; omega
 
+/-- `Int128.Div64` (its own sign fix-up on an `int64` operand, through `Uint128.Div64`): quotient truncated toward zero,
+    reduced mod 2^128, for every non-zero `int64` divisor (also `MinInt64`, whose negation wraps to its own magnitude) -/
+theorem idiv64_spec (a : I128) (n : W) (h : I128.int64Val n ≠ 0) :
+    ∃ q, a.divW n = .ok q ∧ q.toInt = I128.wrap128 (a.toInt.tdiv (I128.int64Val n)) := I128.divW_correct a n h
+
 /-- `Int128.Div` / `Int128.Mod` are the components of `Int128.DivMod`; `DivMod64` is `DivMod` of the sign-extended
     operand by definition -/
 theorem idiv_eq_fst_divMod (a n : I128) :
@@ -345,11 +363,17 @@ theorem idiv_eq_fst_divMod (a n : I128) :
     ∀ w : W, a.divModW w = a.divMod ⟨I128.ext64 w, w⟩ :=
   ⟨I128.div_eq_divMod a n, I128.mod_eq_divMod a n, fun _ => rfl⟩
 
-/-! non-vacuity: the hypotheses of `divMod_spec_fast` are met by concrete operands (2^64 / 2^64: the `u = n` path),
-    and a concrete evaluation of the model: 7 / 2 = 3 rem 1 -/
+/-! non-vacuity: concrete evaluations of the model on each kind of path — 7 / 2 = 3 rem 1 (64-bit fast path);
+    the hypotheses of the kernel contracts are met by concrete operands (`divmod128by64`: 2^64 / 3 with high word 1 < 3;
+    `divmod128by128`: divisor 2^64 + 1 below dividend 2^65) -/
 example : (U128.mk 1#64 0#64).toNat ≠ 0 ∧ (U128.mk 1#64 0#64).toNat ≤ (U128.mk 1#64 0#64).toNat := by
   simp [U128.toNat]
 example : (U128.mk 0#64 7#64).divMod (U128.mk 0#64 2#64) = .ok (⟨0#64, 3#64⟩, ⟨0#64, 1#64⟩) := by
   simp [U128.divMod]
+example : (3#64 : W) ≠ 0#64 ∧ (U128.mk 1#64 0#64).hi.toNat < (3#64 : W).toNat := by decide
+example : (U128.mk 1#64 1#64).hi ≠ 0#64 ∧ (U128.mk 1#64 1#64).toNat < (U128.mk 2#64 0#64).toNat := by
+  constructor
+  · decide
+  · simp [U128.toNat]
 
 end C01
